@@ -19,7 +19,7 @@ Definition recon (level : Z) (x : xfst) : point :=
   if x_level x =? level then centre level x else x_xyz x.
 
 Definition xfst_ok (x : xfst) : Prop :=
-  point_ok (x_xyz x) /\ 0 <= x_face x < 6 /\ u32 (x_si x) /\ u32 (x_ti x).
+  vertex_ok (x_xyz x) /\ 0 <= x_face x < 6 /\ u32 (x_si x) /\ u32 (x_ti x).
 
 (** * (si,ti) -> (pi,qi) stays below 2^level *)
 Lemma piqi_range si level : u32 si -> 0 <= level <= 30 -> 0 <= s2_siTitoPiQi si level < 2 ^ level.
@@ -370,7 +370,7 @@ Definition apply_offc (pts : list point) (oc : list (Z * point)) : list point :=
 Definition enc_offc (ip : Z * point) : list Z := put_uvarint (wrap_u64 (fst ip)) ++ enc_point (snd ip).
 
 Lemma offc_loop n : forall oc pts t lg,
-  Forall (fun ip => 0 <= fst ip < n /\ point_ok (snd ip)) oc -> n <= s2_maxEncodedVertices ->
+  Forall (fun ip => 0 <= fst ip < n /\ vertex_ok (snd ip)) oc -> n <= s2_maxEncodedVertices ->
   rep offc_stop (offc_body n) (len oc) (pts, (flat_map enc_offc oc ++ t) @ lg) = (apply_offc pts oc, t @ lg).
 Proof.
   induction oc as [|[i p] oc IH]; intros pts t lg H Hn.
@@ -386,7 +386,7 @@ Proof.
     unfold go_index. cbn [failed d_st].
     replace ((i <? 0) || (n <=? i)) with false.
     2:{ symmetry. apply orb_false_iff. split; [apply Z.ltb_ge|apply Z.leb_gt]; lia. }
-    rewrite read_point_app by auto. fold (len oc). rewrite IH; auto.
+    rewrite read_vertex_app by auto. fold (len oc). rewrite IH; auto.
 Qed.
 
 Lemma upd_nat_app {A} (pre : list A) x rest v : upd_nat (pre ++ x :: rest) (length pre) v = pre ++ v :: rest.
@@ -418,7 +418,7 @@ Proof.
 Qed.
 
 Lemma off_centre_ok level : forall xs i0, 0 <= i0 -> Forall xfst_ok xs ->
-  Forall (fun ip => 0 <= fst ip < i0 + len xs /\ point_ok (snd ip)) (off_centre i0 level xs)
+  Forall (fun ip => 0 <= fst ip < i0 + len xs /\ vertex_ok (snd ip)) (off_centre i0 level xs)
   /\ len (off_centre i0 level xs) <= len xs.
 Proof.
   induction xs as [|x xs IH]; intros i0 Hi H; [split; [constructor|cbn; lia]|].
@@ -475,7 +475,7 @@ Definition cloop_view (level : Z) (l : loop) : cloop :=
                 then Some (l_bound l) else None).
 
 Definition cloop_ok (l : loop) : Prop :=
-  Forall point_ok (l_vertices l) /\ Forall (fun v => xfst_ok (xyz_face_siti v)) (l_vertices l)
+  Forall vertex_ok (l_vertices l) /\ Forall (fun v => xfst_ok (xyz_face_siti v)) (l_vertices l)
   /\ - 2 ^ 63 <= l_depth l < 2 ^ 63 /\ rect_ok (l_bound l).
 
 Lemma loop_props_cases l :
